@@ -835,13 +835,17 @@ class ExcludeRegionState(object):  # pylint: disable=too-many-instance-attribute
         )
 
         newZ = self.position.Z_AXIS.nativeToLogical()
-        oldZ = self.lastPosition.Z_AXIS.nativeToLogical()
+
+        # Compare the native positions, as the units or offsets of the logical coordinates may
+        # have changed since the region was entered
+        newNativeZ = self.position.Z_AXIS.current
+        oldNativeZ = self.lastPosition.Z_AXIS.current
         moveZcmd = "G0 F{f} Z{z}".format(
             f=self.feedRate / self.feedRateUnitMultiplier,
             z=newZ
         )
 
-        if (newZ > oldZ):
+        if (newNativeZ > oldNativeZ):
             # Move Z axis _up_ to new position
             # (hopefully help avoid hitting any part we may pass over)
             returnCommands.append(moveZcmd)
@@ -856,7 +860,7 @@ class ExcludeRegionState(object):  # pylint: disable=too-many-instance-attribute
             )
         )
 
-        if (newZ < oldZ):
+        if (newNativeZ < oldNativeZ):
             # Move Z axis _down_ to new position
             # (hopefully we avoided hitting any part we may pass over)
             returnCommands.append(moveZcmd)
